@@ -24,6 +24,11 @@ Definition pair_count (t : list Z) (bs : Z) (labels : list Z) (x y k : Z) : Z :=
 Definition Shape (n1 n2 n3 : nat) (C : cube) : Prop :=
   length C = n1 /\ Forall (fun row => length row = n2 /\ Forall (fun c => length c = n3) row) C.
 
+(* the regime of the cluster list: distinct non-negative ids containing every label (what _index_of
+   "implicitly assumes") *)
+Definition ids_ok (labels ids : list Z) : Prop :=
+  NoDup ids /\ (forall x, In x ids -> 0 <= x) /\ (forall x, In x labels -> In x ids).
+
 (* one-sided correlogram: clusters in the caller's order, bins 0 .. W *)
 Definition OneSided_Spec (t labels ids : list Z) (bs W : Z) (C : cube) : Prop :=
   Shape (length ids) (length ids) (Z.to_nat (W + 1)) C /\
@@ -41,6 +46,10 @@ Definition Sym_Spec (nc w : nat) (C S : cube) : Prop :=
 
 (* number of spikes of cluster x *)
 Definition n_spikes (labels : list Z) (x : Z) : Z := Z.of_nat (count_occ Z.eq_dec labels x).
+
+(* `duration or 1.` *)
+Definition eff_dur (dur : option Q) : Q :=
+  match dur with None => 1%Q | Some d => if Qeq_bool d 0 then 1%Q else d end.
 
 Definition Rate_Spec (labels ids : list Z) (bin dur : Q) (R : list (list Q)) : Prop :=
   length R = length ids /\ Forall (fun row => length row = length ids) R /\
